@@ -187,7 +187,8 @@ func runDKGLifecycle(t *testing.T, rc *RunCtx) {
 		}
 		rc.Stats.Inc("life_runs_in_a_wallet_created_after_start", 1)
 	}
-	accts := []string{wn + "/life-a", wn + "/life-b", wn + "/life-c"}[:1+ch.Pick(3, 0)]
+	// (the second name differs from the first by the case of one letter: another account, another lifecycle)
+	accts := []string{wn + "/life-a", wn + "/life-A", wn + "/life-c"}[:1+ch.Pick(3, 0)]
 	// A sixth of the runs range over many names (9-24): however many generations were opened and left behind, each
 	// name has a lifecycle of its own.
 	many := ch.Pick(6, 0) == 5
